@@ -22,6 +22,7 @@ type coreState struct {
 	direct     map[*ssa.Function][]Access
 	mayWrite   map[*ssa.Function]bool // transitively writes persistent state
 	mutParams  map[*ssa.Function]map[int]bool
+	directMut  map[*ssa.Function]bool // the function itself stores into / deletes from a container reached from a parameter
 	panics     map[*ssa.Function]bool
 }
 
@@ -156,6 +157,12 @@ func (cs *coreState) computeMutParams() {
 		taints[fn] = derive(fn)
 		cs.mutParams[fn] = map[int]bool{}
 	}
+	cs.directMut = map[*ssa.Function]bool{}
+	markDirect := func(fn *ssa.Function, v ssa.Value) {
+		if _, ok := taints[fn][v]; ok {
+			cs.directMut[fn] = true
+		}
+	}
 	mark := func(fn *ssa.Function, v ssa.Value) bool {
 		if idx, ok := taints[fn][v]; ok && !cs.mutParams[fn][idx] {
 			cs.mutParams[fn][idx] = true
@@ -169,11 +176,13 @@ func (cs *coreState) computeMutParams() {
 			instrs(fn, func(in ssa.Instruction) {
 				switch x := in.(type) {
 				case *ssa.MapUpdate:
+					markDirect(fn, x.Map)
 					if mark(fn, x.Map) {
 						changed = true
 					}
 				case *ssa.Store:
 					if ia, ok := x.Addr.(*ssa.IndexAddr); ok {
+						markDirect(fn, ia.X)
 						if mark(fn, ia.X) {
 							changed = true
 						}
@@ -181,6 +190,7 @@ func (cs *coreState) computeMutParams() {
 				case ssa.CallInstruction:
 					name := staticCalleeName(x)
 					if name == "builtin.delete" {
+						markDirect(fn, x.Common().Args[0])
 						if mark(fn, x.Common().Args[0]) {
 							changed = true
 						}
